@@ -1,5 +1,6 @@
 -------------------------------- MODULE MC_TwoQubit --------------------------------
-(* Bell-diagonal weights on an integer grid (incl. boundary, separable-threshold and near-threshold states), two local
+(* X states with squared-integer populations and axis coherences (exact Yu-Eberly concurrence), and
+   Bell-diagonal weights on an integer grid (incl. boundary, separable-threshold and near-threshold states), two local
    phased permutations; pure states with small Gaussian-integer amplitudes.  Invariants: the closed forms lie in their
    ranges, C > 0 <=> negativity > 0 <=> NPT, and the partial transpose of the (real) Bell-diagonal matrix is positive
    semidefinite exactly when p_max <= 1/2 (exact LDL^T). *)
@@ -12,7 +13,12 @@ Weights == {n \in [1..4 -> 0..WMax] : NTot(n) > 0} \cup Thresh
 LUs == {<<0, 0, 0>>, <<1, 0, 1>>, <<0, 1, 3>>, <<1, 2, 1>>}
 Amps == {<<a, b>> : a \in -1..1, b \in -1..1}
 Pures == {p \in [1..4 -> Amps] : \E i \in 1..4 : p[i] # <<0, 0>>}
-Init == \/ /\ cfg \in [kind : {"bell"}, n : Weights, ua : LUs, ub : LUs]
+Axis == {<<k, 0>> : k \in -4..4} \cup {<<0, k>> : k \in -4..4}
+XCfgs == {c \in [kind : {"xstate"}, n : [1..4 -> 0..2], ua : {<<0, 0, 0>>, <<1, 0, 1>>}, ub : {<<0, 0, 0>>, <<0, 1, 3>>}, w : Axis, z : Axis] : XValid(c.n, c.w, c.z)}
+Init == \/ /\ cfg \in XCfgs
+           /\ \E M \in {Conjugate(XRho(cfg.n, cfg.w, cfg.z), GKron(LU1(cfg.ua), LU1(cfg.ub)))} :
+                obs = [rho |-> M, den |-> XN(cfg.n), c |-> XC(cfg.n, cfg.w, cfg.z), neg |-> RZero, npt |-> XNPT(cfg.n, cfg.w, cfg.z), c2 |-> RZero]
+        \/ /\ cfg \in [kind : {"bell"}, n : Weights, ua : LUs, ub : LUs]
            /\ \E M \in {Conjugate(ToG(BellRho2N(cfg.n)), GKron(LU1(cfg.ua), LU1(cfg.ub)))} :
                 obs = [rho |-> M, den |-> 2 * NTot(cfg.n), c |-> BellC(cfg.n), neg |-> BellNeg(cfg.n), npt |-> BellNPT(cfg.n), c2 |-> RZero]
         \/ /\ cfg \in [kind : {"pure"}, n : {<<0, 0, 0, 0>>}, ua : {<<0, 0, 0>>}, ub : Pures]
@@ -23,5 +29,11 @@ RangeOK == /\ ~RIsNeg(obs.c) /\ ~RIsNeg(RSub(ROne, obs.c)) /\ ~RIsNeg(obs.neg) /
            /\ ~RIsNeg(obs.c2) /\ ~RIsNeg(RSub(ROne, obs.c2))
 ZeroPatternOK == cfg.kind = "bell" => ((~RIsZero(obs.c)) <=> obs.npt) /\ ((~RIsZero(obs.neg)) <=> obs.npt)
 PTOK == cfg.kind = "bell" => (IsPSD([r \in 1..4 |-> [c \in 1..4 |-> R(PT4(BellRho2N(cfg.n))[r][c], 2 * NTot(cfg.n))]]) <=> ~obs.npt)
-TraceOK == cfg.kind = "bell" => GTrace(obs.rho) = <<obs.den, 0>> /\ GDagger(obs.rho) = obs.rho
+TraceOK == cfg.kind \in {"bell", "xstate"} => GTrace(obs.rho) = <<obs.den, 0>> /\ GDagger(obs.rho) = obs.rho
+\* X states: C > 0 <=> NPT; for real w, z the (real symmetric) matrix and its partial transpose are decided by the exact LDL^T
+XOK == cfg.kind = "xstate" => /\ ((~RIsZero(obs.c)) <=> obs.npt)
+                              /\ (cfg.w[2] = 0 /\ cfg.z[2] = 0) =>
+                                   LET M == XRho(cfg.n, cfg.w, cfg.z)  N == XN(cfg.n)
+                                       Re(A) == [r \in 1..4 |-> [k \in 1..4 |-> R(A[r][k][1], N)]] IN
+                                   IsPSD(Re(M)) /\ (IsPSD(Re(PT4(M))) <=> ~obs.npt)
 =============================================================================
